@@ -7,5 +7,6 @@ import (
 	_ "aaverif/eng/hist"
 	_ "aaverif/eng/imports"
 	_ "aaverif/eng/outdir"
+	_ "aaverif/eng/race"
 	_ "aaverif/eng/sched"
 )
